@@ -108,6 +108,9 @@ def run(ctx):
     if not s.get("samples"):
         with open(sorted(glob.glob(os.path.join(ctx.work, "trace.ndjson.s00*")))[0]) as f:
             s["samples"] = [json.loads(f.readline())]
+    from checks import wiring_rider
+    wr = wiring_rider.run(ctx, PID)
+    ctx.cov["wiring_rider"] = wr
     h = hits(ctx)
     vac = [f for f in MON_FORMULAS if h.get(f, 0) == 0]
     if vac:
@@ -143,6 +146,9 @@ def run(ctx):
 def replay(ctx, path):
     with open(path) as f:
         sc = json.load(f)
+    if sc.get("rider") == "wiring":
+        from checks import wiring_rider
+        return wiring_rider.replay(ctx, path)
     sp = ctx.write_scenarios([sc])
     s, nlines = drive_and_judge(ctx, [sp], 0)
     ctx.cov.update(dict(states=1, transitions=1, traces_validated_against_impl=s["syncs"], samples=(s.get("samples") or [sc])[:1],
